@@ -79,26 +79,32 @@ def run(ctx, config='rel-all'):
             jobs.append((p['name'] + '#twin', p['twin']))
     res = witness.run_probes(libdir, jobs)
     nneg = npos = 0
+
+    def wrule(p):
+        # W2 = the probes about threads (Send / Sync / spawn), W1 = the probes about borrows and lifetimes
+        n = p['name']
+        return 'W2' if (n.split(':')[0] in ('not-Send', 'is-Send', 'not-Sync', 'is-Sync') or 'thread' in n) else 'W1'
     for p in probes:
         v = res[p['name']]
+        W = wrule(p)
         if p['expect'] is None:
             npos += 1
             if v['ok']:
-                ctx.ok('W1', 'accepted: ' + p['name'], 'rustc accepts')
+                ctx.ok(W, 'accepted: ' + p['name'], 'rustc accepts')
             else:
-                ctx.violation('W1', 'probe', 'must-compile:' + p['name'], 'a legitimate client program is rejected: %s %s' % (v['codes'], v['messages'][:1]))
+                ctx.violation(W, 'probe', 'must-compile:' + p['name'], 'a legitimate client program is rejected: %s %s' % (v['codes'], v['messages'][:1]))
             continue
         nneg += 1
         tw = res.get(p['name'] + '#twin')
         if tw is not None and not tw['ok']:
-            ctx.violation('W1', 'probe', 'twin-broken:' + p['name'], 'the legal twin of misuse probe %s does not compile (%s %s): the probe cannot witness anything' % (p['name'], tw['codes'], tw['messages'][:1]))
+            ctx.violation(W, 'probe', 'twin-broken:' + p['name'], 'the legal twin of misuse probe %s does not compile (%s %s): the probe cannot witness anything' % (p['name'], tw['codes'], tw['messages'][:1]))
             continue
         if v['ok']:
-            ctx.violation('W1', 'probe', 'misuse-accepted:' + p['name'], 'misuse program "%s" is accepted by rustc (expected %s)' % (p['name'], '/'.join(p['expect'])))
+            ctx.violation(W, 'probe', 'misuse-accepted:' + p['name'], 'misuse program "%s" is accepted by rustc (expected %s)' % (p['name'], '/'.join(p['expect'])))
         elif not (set(v['codes']) & set(p['expect'])):
-            ctx.violation('W1', 'probe', 'wrong-error:' + p['name'], 'misuse program "%s" is rejected with %s, expected %s (%s)' % (p['name'], v['codes'], p['expect'], v['messages'][:1]))
+            ctx.violation(W, 'probe', 'wrong-error:' + p['name'], 'misuse program "%s" is rejected with %s, expected %s (%s)' % (p['name'], v['codes'], p['expect'], v['messages'][:1]))
         else:
-            ctx.ok('W1', 'rejected %s: %s' % ('/'.join(sorted(set(v['codes']) & set(p['expect']))), p['name']), 'twin compiles' if tw else 'control type compiles')
+            ctx.ok(W, 'rejected %s: %s' % ('/'.join(sorted(set(v['codes']) & set(p['expect']))), p['name']), 'twin compiles' if tw else 'control type compiles')
     ctx.floor('W1.neg', nneg, 40 if tier == 'quick' else 100, 'misuse probes')
     ctx.floor('W1.pos', npos, 12, 'positive probes')
     ctx.extra['probes'] = {'misuse': nneg, 'positive': npos, 'compiled_programs': len(jobs)}
